@@ -48,13 +48,13 @@ WITNESSES = {"MC_dur_wit_torn.cfg": "SomeTornBatchDropped", "MC_dur_wit_inflight
 
 # the fixed list: every kind of operation, both CAS paths, a frame larger than the journal buffer
 CANONICAL = [
-    {"op": "append", "id": 1, "f": {"topic": "tA", "ctx": 0, "ttl": "forever", "meta": "m", "hash": "h1"}},
+    {"op": "append", "id": 1, "f": {"topic": "tA", "ctx": 0, "ttl": "forever", "meta": "m", "hash": "h1"}, "via": "hash"},
     {"op": "append", "id": 2, "f": {"topic": "xs.context", "ctx": 0, "ttl": "forever", "meta": "m", "hash": "none"}},
-    {"op": "append", "id": 3, "f": {"topic": "tA", "ctx": 2, "ttl": "none", "meta": "mBig", "hash": "h2"}},
-    {"op": "append", "id": 4, "f": {"topic": "tB", "ctx": 0, "ttl": "head:1", "meta": "m", "hash": "none"}},
+    {"op": "append", "id": 3, "f": {"topic": "tA", "ctx": 2, "ttl": "none", "meta": "mBig", "hash": "h2"}, "via": "stream"},
+    {"op": "append", "id": 4, "f": {"topic": "tB", "ctx": 0, "ttl": "head:1", "meta": "m", "hash": "none"}, "via": "http"},
     {"op": "remove", "id": 1},
     {"op": "import", "id": -94, "f": {"topic": "tA", "ctx": 0, "ttl": "forever", "meta": "m", "hash": "none"}},
-    {"op": "append", "id": 7, "f": {"topic": "tB", "ctx": 0, "ttl": "head:1", "meta": "m", "hash": "h1"}},
+    {"op": "append", "id": 7, "f": {"topic": "tB", "ctx": 0, "ttl": "head:1", "meta": "m", "hash": "h1"}, "via": "http"},
     {"op": "gc", "id": 4},
 ]
 
@@ -83,13 +83,18 @@ class Run:
     def __init__(self, b, aops, seed, bulk=False):
         self.b, self.aops, self.bulk = b, aops, bulk
         rng = random.Random(seed * 7919 + b)
-        ta, tb = TOPIC_SETS[rng.randrange(len(TOPIC_SETS))]
+        sets = TOPIC_SETS
+        if any(o.get("via") == "http" for o in aops):      # the list insists on the HTTP entry point
+            sets = [t for t in TOPIC_SETS if all(ch.isalnum() or ch in "._-" for x in t for ch in x) and len(t[0]) < 200]
+        ta, tb = sets[rng.randrange(len(sets))]
         self.topics = {"tA": ta, "tB": tb, "xs.context": "xs.context"}
         self.contents = {"h1": b"hello " + str(seed).encode(),
                          "h2": bytes((i * 7 + seed) % 251 for i in range(rng.choice([8193, 9000, 70000])))}
         self.hashes = {k: integrity(v) for k, v in self.contents.items()}
-        self.big = 9000 if not bulk else 65536
-        self.metas, self.cops, self.owner = {}, [], {}
+        self.big = 9000 if not bulk else 262144
+        self.metas, self.cops, self.owner = {0: None}, [], {}
+        self.via = {}
+        urlsafe = all(ch.isalnum() or ch in "._-" for t in (ta, tb) for ch in t) and len(ta) < 200
         for k, o in enumerate(aops, 1):
             if o["op"] in ("append", "import"):
                 f = o["f"]
@@ -100,9 +105,17 @@ class Run:
                 ttl = None if f["ttl"] == "none" else f["ttl"]
                 if o["op"] == "append":
                     c = self.contents.get(f["hash"])
+                    # entry point: Store API with cacache write_hash (mmap) / streaming writer, or the
+                    # HTTP front end (POST /{topic}, src/api.rs) - the latter needs a topic that can
+                    # stand in a request line and a meta that fits a header
+                    via = o.get("via") or (["hash", "stream", "http"][(k + seed) % 3] if c is not None
+                                           else ("http" if (k + seed) % 4 == 0 else "api"))
+                    if via == "http" and (bulk or not urlsafe or f["meta"] == "mBig" and self.big > 9000):
+                        via = "stream" if c is not None else "api"
+                    self.via[k] = via
                     self.cops.append({"op": "append", "topic": self.topics[f["topic"]], "ctx": ctx, "ttl": ttl,
                                       "meta": meta, "content": base64.b64encode(c).decode() if c is not None else None,
-                                      "via": "stream" if (k + seed) % 2 else "hash"})
+                                      "via": via})
                 else:
                     ts = BASE_MS + (-1_000_000 if o["id"] < 0 else 1_000_000) + k
                     self.cops.append({"op": "import", "ctx": ctx,
@@ -115,7 +128,9 @@ class Run:
                 self.cops.append({"op": "drain"})
             else:
                 raise ToolError(f"operation {o}")
+        self.http = "http" in self.via.values()
         self.rtopics = {v: k for k, v in self.topics.items()}
+        self.rtopics["xs.start"] = "tStart"
         self.rhashes = {v: k for k, v in self.hashes.items()}
 
     def opsfile(self, d):
@@ -134,8 +149,8 @@ class Run:
                 f = dict(o["f"])
                 if f["topic"] == "xs.context":
                     f["ttl"] = "forever"
-                if o["op"] == "import" and f["ttl"] == "none":
-                    f["ttl"] = "none"
+                if self.via.get(k) == "http" and f["ttl"] == "none":
+                    f["ttl"] = "forever"      # POST /{topic} without ttl= stores the default explicitly
                 if a is not None and not a.get("ok"):
                     out.append({"op": "noop", "id": 0})
                 else:
@@ -146,7 +161,15 @@ class Run:
                 out.append({"op": "remove", "id": o["id"]})
             else:
                 out.append({"op": "noop", "id": 0})
+        if self.http:
+            # api::serve appended xs.start before anything else: operation 0 of the history
+            out.insert(0, {"op": "append", "id": 0, "f": {"topic": "tStart", "ctx": 0, "ttl": "none",
+                                                          "meta": "mNone", "hash": "none"}})
         return out, res
+
+
+def nack(acks):
+    return sum(1 for k in acks if k >= 1)
 
 
 def parse_acks(path):
@@ -157,6 +180,8 @@ def parse_acks(path):
             if line.startswith("ACK ") and line.endswith("\n"):
                 _, k, js = line.split(" ", 2)
                 acks[int(k)] = json.loads(js)
+            elif line.startswith("OPEN ") and line.endswith("\n"):
+                acks[0] = json.loads(line[5:])
             elif line.startswith("DONE"):
                 done = True
     return acks, done
@@ -174,6 +199,8 @@ def abstract(run, acks, obs, nacked):
     if "probe_panic" in obs:
         return dict(EMPTY_OBS, open=True, panic=True), obs["probe_panic"]
     ids = {ZERO: 0}
+    if acks.get(0, {}).get("start"):
+        ids[acks[0]["start"]] = 0          # the xs.start frame of api::serve: operation 0
     for k, o in enumerate(run.aops, 1):
         if o["op"] == "import":
             ids[run.cops[k - 1]["frame"]["id"]] = o["id"]
@@ -197,10 +224,9 @@ def abstract(run, acks, obs, nacked):
         if not isinstance(f, dict) or "garbled" in f:
             return {"id": aid(key), "topic": "t?", "ctx": -1, "ttl": "?", "meta": "m?", "hash": "h?"}
         a = aid(f.get("id", key))
-        want = run.metas.get(a)
         mtok = "m?"
-        if want is not None and f.get("meta") == want:
-            mtok = "mBig" if "big" in want else "m"
+        if a in run.metas and f.get("meta") == run.metas[a]:
+            mtok = "mNone" if run.metas[a] is None else ("mBig" if "big" in run.metas[a] else "m")
         h = f.get("hash")
         return {"id": a if key is None or f.get("id") == key else -aid(key) - 5000,
                 "topic": run.rtopics.get(f.get("topic"), "t?"),
@@ -240,12 +266,12 @@ def recover(img_dir, probe):
 
 
 def probe_file(run, acks, d, tag):
-    ids = [a["id"] for a in acks.values() if a.get("id")]
+    ids = [a["id"] for a in acks.values() if a.get("id")] + [a["start"] for a in acks.values() if a.get("start")]
     ids += [c["frame"]["id"] for c in run.cops if c["op"] == "import"]
     ctxs = [acks[k]["id"] for k, o in enumerate(run.aops, 1)
             if o["op"] == "append" and o["f"]["topic"] == "xs.context" and k in acks and acks[k].get("id")]
     heads = sorted({(run.topics[o["f"]["topic"]], c) for o in run.aops if o["op"] in ("append", "import")
-                    for c in [ZERO] + ctxs})
+                    for c in [ZERO] + ctxs} | {("xs.start", ZERO)})
     p = os.path.join(d, f"probe-{tag}.json")
     json.dump({"clock": BASE_MS, "ids": sorted(set(ids)), "ctxs": ctxs, "heads": [list(h) for h in heads]}, open(p, "w"))
     return p
@@ -328,7 +354,7 @@ def do_run(run, d, cfg, seed, pool):
     if first_k is None:
         raise ToolError(f"run {run.b}: no ACK 1 in the counting run")
     a_cnt, _ = parse_acks(cnt_ack)
-    images.append(("kill", "kill-end", total + 1, len(a_cnt), a_cnt,
+    images.append(("kill", "kill-end", total + 1, nack(a_cnt), a_cnt,
                    pool.submit(recover_and_drop, cnt_dir, probe_file(run, a_cnt, rd, "cnt"))))
     kpoints = sample(list(range(first_k, total + 1)), cfg["max_points"], rng)
     stats["kill_points"] = len(kpoints)
@@ -344,7 +370,7 @@ def do_run(run, d, cfg, seed, pool):
 
     for fut in [pool.submit(one_kill, k) for k in kpoints]:
         k, a, obs = fut.result()
-        images.append(("kill", "kill", k, len(a), a, obs))
+        images.append(("kill", "kill", k, nack(a), a, obs))
 
     # (4) observations -> trace events
     nimg = 0
@@ -353,7 +379,8 @@ def do_run(run, d, cfg, seed, pool):
             obs = obs.result()
         nimg += 1
         o, note = abstract(run, a, obs, na)
-        events.append({"e": "image", "img": nimg, "kind": kind, "variant": variant, "k": k, "acked": na,
+        events.append({"e": "image", "img": nimg, "kind": kind, "variant": variant, "k": k,
+                       "acked": na + (1 if run.http else 0),
                        "inflight": na < len(run.aops), "o": o, "note": note[:300]})
     stats["images"] = nimg
     stats["power_images"] = sum(1 for i in images if i[0] == "power")
@@ -435,12 +462,12 @@ def gen_bulk(rng, n):
     """enough data to cross a memtable flush (16 MiB) and the journal rotation that goes with it"""
     ops = []
     for k in range(1, n + 1):
-        if k % 40 == 7:
+        if k % 20 == 7:
             ops.append({"op": "remove", "id": k - 3})
         else:
             ops.append({"op": "append", "id": k, "f": {"topic": "tA" if k % 3 else "tB", "ctx": 0,
-                                                       "ttl": "head:2" if k % 50 == 0 else "forever",
-                                                       "meta": "mBig", "hash": "h1" if k % 25 == 0 else "none"}})
+                                                       "ttl": "head:2" if k % 16 == 0 else "forever",
+                                                       "meta": "mBig", "hash": "h1" if k % 10 == 0 else "none"}})
     return ops
 
 
@@ -492,7 +519,7 @@ def run(tier, seed):
         lists += [("tlc", o) for o in gen_tlc(cfg["tlc_runs"], seed + 1)] if cfg["tlc_runs"] else []
         lists += [("random", gen_random(rng, cfg["ops"])) for _ in range(cfg["rnd_runs"])]
         runs = [Run(b, o, seed) for b, (_, o) in enumerate(lists)]
-        runs += [Run(len(lists) + i, gen_bulk(rng, 300), seed, bulk=True) for i in range(cfg["bulk"])]
+        runs += [Run(len(lists) + i, gen_bulk(rng, 80), seed, bulk=True) for i in range(cfg["bulk"])]
         t1 = time.time()
         files, stats, all_events = [], [], {}
         with ThreadPoolExecutor(max_workers=cfg["jobs"]) as pool:
@@ -514,6 +541,7 @@ def run(tier, seed):
             outs = list(ex.map(validate, files))
         t3 = time.time()
         res["violations"] = {}
+        res["advisories"] = []
         states = 0
         replays = os.path.join(os.path.dirname(SPEC), "replays")
         for r, (viols, verdict, dist) in zip(runs, outs):
@@ -521,11 +549,19 @@ def run(tier, seed):
             nimg = sum(1 for e in all_events[r.b] if e["e"] == "image")
             if verdict.get("images") != nimg:
                 raise ToolError(f"run {r.b}: TLC judged {verdict.get('images')} of {nimg} images")
+            # images built under the stricter file-system contract (durimg.py) never decide
+            evs = all_events[r.b]
+            adv = [v for v in viols if evs[v["l"] - 1].get("variant", "").startswith("pl-strict")]
+            viols = [v for v in viols if v not in adv]
+            for v in adv:
+                e = evs[v["l"] - 1]
+                res.setdefault("advisories", []).append(
+                    {"b": r.b, "what": v["e"], "note": e.get("note", ""), "crash_point": e.get("k"),
+                     "source": stats[runs.index(r)]["source"]})
             if not viols:
                 continue
             os.makedirs(replays, exist_ok=True)
             path = os.path.join(replays, f"dur-b{r.b}.json")
-            evs = all_events[r.b]
             bad_lines = sorted({v["l"] for v in viols})
             json.dump({"group": "dur", "seed": seed, "abstract_ops": r.aops, "concrete_ops": r.cops,
                        "violations": viols,
@@ -544,5 +580,6 @@ def run(tier, seed):
         shutil.rmtree(d, ignore_errors=True)
     res["wall_s"] = round(time.time() - t0, 1)
     log(f"dur group: {res['behaviours']} runs, {res['images']} images ({res['kill_images']} kill, "
-        f"{res['power_images']} power-loss), violations {sorted(res['violations'])}, {res['wall_s']}s")
+        f"{res['power_images']} power-loss), violations {sorted(res['violations'])}, "
+        f"{len(res['advisories'])} advisories, {res['wall_s']}s")
     return res
